@@ -615,9 +615,17 @@ def run_histories(ctx, binary, hs, classify):
     return terms
 
 
-def gen_pubsub(ctx, pool):
+def gen_pubsub(ctx, pool, pairs=()):
+    """scripts for the real ingest_from_pubsub loop: [(script, expectation)]"""
     rng = ctx.rng
     scripts = []
+    clear = ({"ph": None, "cl": None, "tmo": None, "op": 3, "dst": None, "src": None, "proto": None}, None)
+    # the loop must go on after a receive error, an unreadable payload, an undecodable payload: an announcement that follows is
+    # stored, the shutdown Clear that follows is acted on
+    for (n, u) in list(pairs)[:2]:
+        for errs in ("E", "Y", "B", "EYB"):
+            scripts.append(([(NOW + i, k, None) for i, k in enumerate(errs)] + [(NOW + 10, "M", n)], ("has", n[1]["conv"]["tag"], errs)))
+            scripts.append(([(NOW, "M", n), (NOW + 1, "M", u)] + [(NOW + 2 + i, k, None) for i, k in enumerate(errs)] + [(NOW + 10, "M", clear)], ("empty", None, errs)))
     for _ in range(6 if ctx.tier == "quick" else 60):
         t = NOW
         sc = []
@@ -625,13 +633,13 @@ def gen_pubsub(ctx, pool):
             t += rng.choice([0, 1, 10 ** 9, 60 * 10 ** 9, UNUSED_NS])
             k = rng.choice("MMMMMMEYB")
             sc.append((t, k, rng.choice(pool) if k == "M" else None))
-        scripts.append(sc)
+        scripts.append((sc, None))
     return scripts
 
 
 def run_pubsub(ctx, binary, scripts, classify, channel):
     terms = []
-    for sc in scripts:
+    for sc, expect in scripts:
         lines = []
         for (t, k, m) in sc:
             lines.append("T %d" % t)
@@ -643,12 +651,26 @@ def run_pubsub(ctx, binary, scripts, classify, channel):
         o = outs[-1]
         if o["subscribed"] != [channel]:
             ctx.fail("channel:mismatch", "the station publishes on %r, the detector subscribes to %r" % (channel, o["subscribed"]), o["subscribed"])
+        if o.get("returned"):
+            ctx.fail("pubsub:loop-ended", "the real ingest_from_pubsub loop returned with %d scripted message(s) unread (it must keep listening after "
+                     "receive errors, unreadable and undecodable payloads): every later announcement and the shutdown Clear are lost"
+                     % o.get("unread", 0), {"script": [(t_, k_, None if m_ is None else m_[0]) for (t_, k_, m_) in sc]})
+        if expect:
+            have = {key for key, _ in o["map"]}
+            ctx.count(("pubsub-after-error", expect[0], expect[2]), kind="pubsub/after-error")
+            if expect[0] == "has" and expect[1] not in have:
+                ctx.fail("pubsub:announcement-ignored-after-error", "the real ingest_from_pubsub loop, after %s (E = receive error, Y = unreadable payload, "
+                         "B = undecodable payload), does not store the New announcement that follows: the detector never forwards the session"
+                         % expect[2], {"script": [(t_, k_, None if m_ is None else m_[0]) for (t_, k_, m_) in sc]})
+            if expect[0] == "empty" and have:
+                ctx.fail("pubsub:clear-ignored-after-error", "the real ingest_from_pubsub loop, after %s, does not act on the station's Clear: %d session(s) "
+                         "survive the shutdown" % (expect[2], len(have)), {"script": [(t_, k_, None if m_ is None else m_[0]) for (t_, k_, m_) in sc]})
         evs, tags = [], []
         for (t, k, m) in sc:
             if k == "M":
-                d = classify(m[0])
+                d = classify(m[0]) if m[1] is not None else {"conv": {"ok": False}}
                 tags.append(d["conv"].get("tag") if d["conv"]["ok"] else None)
-                evs.append("(%s, PMsg %s)" % (gN(t), g_msg(m[0], d)))
+                evs.append("(%s, PMsg %s)" % (gN(t), g_msg(m[0], d) if m[1] is not None else "clear_msg"))
             else:
                 tags.append(None)
                 evs.append("(%s, %s)" % (gN(t), {"E": "PRecvErr", "Y": "PPayloadErr", "B": "PDecodeErr"}[k]))
@@ -1036,7 +1058,7 @@ def _run(ctx, binary):
         for t_ in run_histories(ctx, binary, hs_all, classify):
             terms.append(t_)
             origin.append((None, "history"))
-        for t_ in run_pubsub(ctx, binary, gen_pubsub(ctx, hpool), classify, (meta or {}).get("channel", "dark_decoy_map")):
+        for t_ in run_pubsub(ctx, binary, gen_pubsub(ctx, hpool, pairs), classify, (meta or {}).get("channel", "dark_decoy_map")):
             terms.append(t_)
             origin.append((None, "pubsub"))
     run_world(ctx, binary, wreal, res[n_base:], wfake, fake, (meta or {}).get("max_retries"))
@@ -1049,7 +1071,7 @@ def _run(ctx, binary):
     ctx.require_kinds([k_ for k_ in ["meta", "send/accepted", "send/InvalidPhantom", "send/InvalidClient", "send/MixedV4V6Error",
                        "send/UnrecognizedProto", "announce/accepted", "clear/acted-on", "ingest/0-regs", "ingest/1-regs",
                        "ingest/2-regs", "ingest-announce/ok", "newreg/ok", "newreg/rejected", "detect/ok/added", "detect/InvalidPhantom/nothing",
-                       "detect/InvalidClient/nothing", "detect/MixedV4V6Error/nothing", "detect/UnrecognizedProto/cleared", "history/lifetime", "history/random", "pubsub", "pubfail/err", "pubfail/close", "shutdown/idle", "shutdown/busy"] + WORLD_KINDS
+                       "detect/InvalidClient/nothing", "detect/MixedV4V6Error/nothing", "detect/UnrecognizedProto/cleared", "history/lifetime", "history/random", "pubsub", "pubsub/after-error", "pubfail/err", "pubfail/close", "shutdown/idle", "shutdown/busy"] + WORLD_KINDS
                        if not (k_.startswith("send/") and ctx.cov.get("driver_shim"))])
     if ctx.failures or ctx.brokens:
         # outcome classes are only meaningful as a generator self-test when nothing else is wrong
